@@ -259,4 +259,109 @@ def replay (c : Cfg) (ex : Expiry) : State → List Nat → List Nat → List (N
         | _ => q
       snap c r.1 r.2 :: replay c ex r.1 q' cs es
 
+/-! ### a logical clock for the expiry of failures
+
+The events above say nothing about WHEN a failure may expire.  `Timed` adds a clock advanced by
+explicit `tick d` events and remembers for every recorded, unexpired failure its backend and its
+recording time.  With `ft` = fail_timeout in ticks:
+  * `countFail` (when it records a failure on backend h) appends `(h, now)`;
+  * `timer h` is enabled only for a failure of `h` that is due (`recorded + ft ≤ now`) and removes the oldest such;
+  * `tick d` is enabled only if no pending failure would become overdue (`now + d ≤ recorded + ft` for all):
+    the goroutine sleeping for fail_timeout fires on time.
+Everything else is the untimed `step`. -/
+
+structure Timed where
+  base : State
+  now : Nat
+  pending : List (Nat × Nat)
+deriving Repr, DecidableEq
+
+inductive TEvent where
+  | ev (e : Event)
+  | tick (d : Nat)
+deriving Repr, DecidableEq
+
+def Timed.init (c : Cfg) (n : Nat) : Timed := { base := State.init c n, now := 0, pending := [] }
+
+/-- the oldest pending failure of backend `h` that is due at `now` -/
+def dueOf (ft now h : Nat) (pending : List (Nat × Nat)) : Option (Nat × Nat) :=
+  pending.find? (fun p => p.1 == h && decide (p.2 + ft ≤ now))
+
+def tstep (c : Cfg) (ft : Nat) (S : Timed) : TEvent → Option Timed
+  | .tick d =>
+    if S.pending.all (fun p => decide (S.now + d ≤ p.2 + ft)) then some { S with now := S.now + d } else none
+  | .ev (.countFail t again) =>
+    match step c S.base (.countFail t again) with
+    | none => none
+    | some b =>
+      match S.base.pcs[t]? with
+      | some (.failed h) =>
+        some { S with base := b, pending := if c.countFails then S.pending ++ [(h, S.now)] else S.pending }
+      | _ => some { S with base := b }
+  | .ev (.timer h) =>
+    match dueOf ft S.now h S.pending with
+    | none => none
+    | some p =>
+      match step c S.base (.timer h) with
+      | none => none
+      | some b => some { S with base := b, pending := S.pending.erase p }
+  | .ev e => (step c S.base e).map fun b => { S with base := b }
+
+def trun (c : Cfg) (ft : Nat) : Timed → List TEvent → Option Timed
+  | S, [] => some S
+  | S, e :: es =>
+    match tstep c ft S e with
+    | some S' => trun c ft S' es
+    | none => none
+
+/-- recorded, unexpired failures of backend `h` -/
+def pendingOn (S : Timed) (h : Nat) : Nat := (S.pending.filter (fun p => p.1 == h)).length
+
+/-- the earliest moment at which a pending failure is due, with its backend -/
+def nextDue (ft : Nat) : List (Nat × Nat) → Option (Nat × Nat)
+  | [] => none
+  | p :: ps =>
+    match nextDue ft ps with
+    | some q => if p.2 + ft ≤ q.2 then some (p.1, p.2 + ft) else some q
+    | none => some (p.1, p.2 + ft)
+
+/-- let time pass up to `target`, firing every expiry exactly when it is due -/
+def advanceTo (c : Cfg) (ft target : Nat) : Nat → Timed → Option Timed
+  | 0, _ => none
+  | fuel + 1, S =>
+    match nextDue ft S.pending with
+    | some (h, due) =>
+      if due ≤ target then
+        match tstep c ft S (.tick (due - S.now)) with
+        | some S1 =>
+          match tstep c ft S1 (.ev (.timer h)) with
+          | some S2 => advanceTo c ft target fuel S2
+          | none => none
+        | none => none
+      else tstep c ft S (.tick (target - S.now))
+    | none => tstep c ft S (.tick (target - S.now))
+
+/-- what a probe of backend `h` sees: the failure counter and `Down()` -/
+def probe (c : Cfg) (S : Timed) (h : Nat) : Int × Bool := (getI S.base.fails h, down c S.base h)
+
+/-- The scenarios of the stream c14.expiry.  `late` = how long the failing attempt blocks before it
+fails (the request has been running that long when the failure is recorded).
+single: one attempt on backend 0.  retry: backend 0 fails at once, the retry on backend 1 fails late.
+Probes of the late failure's backend at recording + 100, recording + ft − 150 and recording + ft + 250. -/
+def expiryScenario (retry : Bool) (ft late : Nat) : Option (List (Int × Bool)) :=
+  let c : Cfg := { nHosts := 2, maxConns := 0, maxFails := 1, countFails := true, unhealthy := [false, false], retry := retry }
+  let pre : List TEvent :=
+    if retry then
+      [.ev (.select 0 (some 0) false), .ev (.reserve 0), .ev (.finish 0 .err), .ev (.countFail 0 true),
+       .ev (.select 0 (some 1) false), .ev (.reserve 0), .tick late, .ev (.finish 0 .err), .ev (.countFail 0 false)]
+    else
+      [.ev (.select 0 (some 0) false), .ev (.reserve 0), .tick late, .ev (.finish 0 .err), .ev (.countFail 0 false)]
+  let h := if retry then 1 else 0
+  do
+    let S0 ← trun c ft (Timed.init c 1) pre
+    let S1 ← advanceTo c ft (late + 100) 8 S0
+    let S2 ← advanceTo c ft (late + ft - 150) 8 S1
+    let S3 ← advanceTo c ft (late + ft + 250) 8 S2
+    pure [probe c S1 h, probe c S2 h, probe c S3 h]
+
 end Casket.Accounting
